@@ -1,7 +1,7 @@
 (* C03 Real SVG (namespaced root) passes through with an identical XML infoset.
    Model: Model/Xml.v (reader on well-formed input, conversion to output events, writer). *)
 From Coq Require Import String Ascii List Bool.
-From SvgdxModel Require Import Base.Str Base.Res Gen.Tables Model.Types Model.Xml
+From SvgdxModel Require Import Base.Str Base.Res Num.F32 Gen.Tables Model.Types Model.Xml Model.Pipeline Model.Svgdx Proofs.SvgdxP
   Proofs.TypesP Proofs.XmlP Proofs.XmlConvP.
 Import ListNotations.
 Open Scope string_scope.
@@ -34,6 +34,13 @@ Theorem passthrough_other_items_verbatim : forall t,
   match t with TText _ | TStart _ _ | TEmpty _ _ => False | _ => True end -> tok_of (conv t) = t.
 Proof. exact passthrough_other_verbatim. Qed.
 
+(* the composed model of the whole transform (Model/Svgdx.v, the one compared byte for byte with transform_str) treats a real SVG
+   document exactly as the pass-through above, under every configuration, seed, border and scale *)
+Theorem whole_transform_passes_real_svg_through : forall cfg seed border scale input toks,
+  read_xml input = Some toks -> nesting_ok toks [] = true -> is_real_svg toks = true ->
+  transform_doc cfg seed border scale input = Ok (write_to (map conv toks)).
+Proof. exact real_svg_is_passthrough. Qed.
+
 (* non-vacuity: a concrete document with references, quotes, a comment, CDATA and a PI *)
 Definition doc1 : string :=
   "<svg xmlns='http://www.w3.org/2000/svg' b = ""x&amp;y&#33;"" class=""k k""><!--c--><t a='&lt;'>u &amp; v</t><![CDATA[<z>]]><?pi x?></svg>".
@@ -44,4 +51,4 @@ Proof. vm_compute. reflexivity. Qed.
 
 Print Assumptions attr_value_round_trip. Print Assumptions passthrough_reads_back.
 Print Assumptions passthrough_tag_well_formed. Print Assumptions passthrough_attr_value_preserved.
-Print Assumptions passthrough_other_items_verbatim.
+Print Assumptions passthrough_other_items_verbatim. Print Assumptions whole_transform_passes_real_svg_through.
